@@ -46,6 +46,7 @@ type activeSide struct {
 	ver   map[string]int
 	sync  bool          // drain the change queue synchronously (the syncer was not started, no broadcastLoop)
 	drops *atomic.Int64 // "Client channel full, dropping message" warnings logged by the active
+	logc  *logCounts    // end to end only: the active's own connect/disconnect log lines (step placement, never a verdict)
 }
 
 func (a *activeSide) push(typ ha.SyncMessageType, stored *ha.SessionState, payload ha.SessionState) error {
@@ -363,8 +364,28 @@ func runLinkCase(t fataler, c linkCase) {
 		sentinels++
 		sid := act.sentinel(sentinels)
 		hist = append(hist, "sentinel")
-		if !pollUntil(func() bool { return held(sid) }) {
-			inconclusive("sentinel %s not seen on the standby within %v", sid, waitTimeout)
+		// decided by the sampled state, as in the end-to-end layer (see pollWatch and quiesce in e2e_test.go);
+		// here the active is not even started: the sentinel was broadcast synchronously by the push, so with
+		// nothing queued it is in the hands of a runnable handler, on the wire, or lost for good
+		var noClient bool
+		var lastState string
+		pr := pollWatch(func() bool { return held(sid) }, func() (bool, string) {
+			st := sb.Stats()
+			noClient = act.syn.VerifSSEClientCount() == 0
+			lastState = fmt.Sprintf("noClient=%v sync=%d err=%d/%q table=%x", noClient, st.LastSyncTime.UnixNano(), st.LastErrorTime.UnixNano(), st.LastError, storeFP(sbStore))
+			return st.Connected && act.syn.VerifSSEBacklog() == 0, lastState
+		})
+		if pr == pollDead {
+			sig := sigLinkStableDead + "/gated-episode"
+			if noClient {
+				sig = sigNotRegistered + "/gated-episode"
+			}
+			fail(sig, "episode %d: the standby is connected, the active holds nothing in any queue (registered stream clients: %v), and sentinel %s, pushed with the link up, is not on the standby; nothing moved over >= %v and >= %d samples; standby vs active: %v",
+				ei, act.syn.VerifSSEClientIDs(), sid, deadWindow, deadMinSamples, diffTable(sbStore.GetAllSessions(), act.tbl))
+			break
+		}
+		if pr == pollExpired {
+			inconclusive("sentinel %s not seen on the standby within %v and no stable state over the wait (last sample: %s)", sid, watchTimeout, lastState)
 			break
 		}
 		if d := diffTable(sbStore.GetAllSessions(), act.tbl); !d.empty() {
